@@ -34,6 +34,11 @@ type parseCase struct {
 	Canon []int           `json:"canon"`
 }
 
+// strings returned by Vector() (C08), kept uncopied and re-read after all later calls
+type keptVec struct{ got, want, ver string }
+
+var keptVectors []keptVec
+
 // values of the previously accepted case, per version (used to edit a parsed object before re-parsing)
 var lastAccepted = map[string]map[string]string{}
 
@@ -84,6 +89,12 @@ func runParseCases(prop, file, out string) {
 	wg.Wait()
 	// errors must still say the same thing after everything else has run
 	recheckHeld(prop, held, col)
+	for _, k := range keptVectors {
+		col.count("Vector() strings re-read after all later calls", 1)
+		if k.got != k.want {
+			col.violate(Violation{Property: prop, Kind: "canonical string changed after later calls", Version: k.ver, Input: inputRec([]byte(k.want)), Expected: k.want, Observed: k.got})
+		}
+	}
 	col.s.Info["lines"] = n
 	col.write(out)
 }
@@ -342,6 +353,7 @@ func checkParseCase(prop string, c *parseCase, col0 *collector, held *[]heldErr)
 				}
 			}
 		}
+		keptVectors = append(keptVectors, keptVec{kept, want, c.Ver}) // the very string returned; re-read at the end of the run
 		if kept != want { // the first string must not have been rewritten by the later calls
 			col.violate(Violation{Property: prop, Kind: "canonical string changed after later calls", Version: c.Ver, Input: inputRec(b), Expected: want, Observed: kept})
 		}
